@@ -102,6 +102,12 @@ def summary(r):
     return re.sub(r"@[0-9.]+", "", p)
 
 
+def pending_states(o):
+    """the statement says nothing about INITED / STARTING / STARTED after a timeout: all three mean 'not over yet'"""
+    return tuple((n, tuple(tuple((e, "PENDING" if e == "state" and v in ("INITED", "STARTING", "STARTED") else v, d)
+                                 for (e, v, d) in log) for log in incs)) for (n, incs) in o)
+
+
 def judge(case, prog, obs):
     res = {"case": case, "rel": relation(case), "ok": True, "problems": [], "outcome": None, "error": None}
     if obs["status"] != 0:
@@ -120,7 +126,8 @@ def judge(case, prog, obs):
     except timed_ref.RefError as e:
         res["error"] = "reference: %s" % e
         return res
-    real = timed_ref.normalize(obs)
+    real = pending_states(timed_ref.normalize(obs))
+    allowed = {pending_states(o) for o in allowed}
     wlog = dict(real)["w"][0]
     fl = "wait_any_for" if case["fl"].startswith("wait_any") else case["fl"]
     rec = next(((e, v, d) for (e, v, d) in wlog if e == fl), None)
@@ -194,11 +201,15 @@ def run(ctx):
     outcomes = set()
     nontrivial = set()
     samples = []
-    exhaustive = True
+    exhaustive, rate = True, None
     for name, cases in bounds(ctx.tier):
         if ctx.deadline.left() < 20 and done_bounds:
             exhaustive = False
             break
+        if rate and len(cases) > 1500 and len(cases) / rate * 1.3 > ctx.deadline.left() - 20:      # would not finish
+            exhaustive = False
+            break
+        t_b = __import__("time").time()
         results = simlib.eval_cases_packed(binary, cases, "checks.c12", K=16, tag="c12")
         evaluations += len(results)
         bad = 0
@@ -219,6 +230,8 @@ def run(ctx):
         per_bound[name] = {"cases": len(cases), "failed": bad, "t_s": round(ctx.deadline.t0 and (__import__("time").time() - ctx.t0), 1)}
         common.log("C12 %s: %d cases, %d failing, t=%.0fs" % (name, len(cases), bad, __import__("time").time() - ctx.t0))
         done_bounds.append(name)
+        if len(cases) >= 300:
+            rate = len(cases) / max(0.5, __import__("time").time() - t_b)
         if len(samples) < 4:
             samples.append({"case": cases[len(cases) // 2], "program": build_prog(cases[len(cases) // 2]),
                             "outcome": results[len(cases) // 2]["outcome"]})
